@@ -143,7 +143,7 @@ def install_open_state(ex, o, cfg):
     w0 = dict(k=gi + start - 1, FM=FM, DIR=DIR, c1=c1, c2=c2, FS=FS, FMS=FMS)
     ex.user['windows'].append(w0)
     cap = c2 - c1
-    ex.assume(z3.And(gi >= 1, gi < 2**40, di >= 1, di <= cap, N0 >= 1, N0 < 2**31, seq0 >= 0, seq0 < 2**31 - 8, csz >= 1, csz < 2**40,
+    ex.assume(z3.And(gi >= 1, gi < 2**40, di >= 1, di <= cap, N0 >= 1, N0 < 2**31 - 8, seq0 >= 0, seq0 < 2**31 - 8, csz >= 1, csz < 2**40,
                      s0 >= c1, s0 >= start, ol >= 0, ol < di, sl + (di - ol) == gi + start, gi + start <= c2,
                      z3.If(ol == 0, z3.And(sl == s0, N0 == 1), z3.And(sl > s0, ol <= sl - s0, N0 >= 2))))
     if ex.user.get('window_regular'):
@@ -326,7 +326,7 @@ def build_files(ex):
                 if 'nrows' in ds:
                     # file open since before the step: N0 rows (symbolic) + the rows appended on this path
                     have = ds['nrows'] + (len(ds['rows']) - ds['pre_rows'])
-                    if not ex.valid(off == have): problems.append(('index rows not appended at the end (symbolic row count)', idx))
+                    if not ex.valid(off == have): problems.append(('index rows not appended at the end (symbolic row count): offset %s, have %s' % (str(off)[:120], str(have)[:120]), idx))
                 elif len(ds['rows']) != off: problems.append(('index rows not appended at the end (offset %r, have %d)' % (off, len(ds['rows'])), idx))
                 ds['rows'] += rows
                 ds.setdefault('row_ev', []).extend([idx] * cnt)
